@@ -1,4 +1,4 @@
-"""C09 — corrupted TLE lines are rejected by the modulo-10 checksum."""
+"""C09 \u2014 corrupted TLE lines are rejected by the modulo-10 checksum."""
 import io
 import os
 import sys
@@ -15,15 +15,22 @@ EQUIV = {"PV.Equiv.TranslatedChecksum": ["checksum_unicode", "checksum_eq", "che
                                          "lineCheckU_plain", "exotic_digit_differs", "superscript_differs"],
          "PV.Equiv.TranslatedInit": ["read_tle_lines", "read_tle_lines_ok", "read_tle_source", "init_order",
                                      "init_lines_eq", "init_lines_eq_tleOfLines", "inner_newline_raises"]}
+EQUIV.update({"PV.Equiv.TranslatedBulk": ["mapM_first_error", "mapM_ok_all", "parse_damaged_raises", "parse_ok_all", "entry_damaged", "xmlFile_damaged", "read_xml_damaged"]})      # T-D, fifth wave
 RULE = ("per TLE the complete single-character corruption table (2 lines x 69 positions x 95 printable ASCII "
         "replacements) through Tle(line1=, line2=); sampled corruptions through a file and a StringIO; "
         "collections of 2-4 entries (with / without name lines, LF / CRLF, one or two files) with exactly one entry "
         "corrupted digit -> other digit, read through every collection-reading entry point (tlefile.read by name from a "
         "path / a StringIO / the TLES pattern, by registered number, Tle('', StringIO), Downloader.read_tle_files, "
         "fetch_plain_tle and fetch_spacetrack with `requests` interposed), the intact collection read from the same path "
-        "first; a case is non-trivial when the replacement differs from the original character; "
+        "first; replacements by control / line-boundary / non-ASCII characters (C0, DEL, C1, the ten str.splitlines() "
+        "boundaries, Unicode blanks, letters, digits of other scripts) at every column of both lines through Tle(line1=, "
+        "line2=), a StringIO by name, a StringIO first entry and a file, judged by 'a corrupted set never yields elements'; "
+        "valid TLEs re-issued so that a prefix of a line is itself rule-consistent, cut at that column by every "
+        "line-boundary character; a case is non-trivial when the replacement differs from the original character; "
         "distinct = (tle, line, pos, char)")
-ASSUMPTIONS = ["input restricted to printable ASCII (Python's Unicode isdigit/strip on non-ASCII is outside the model)",
+ASSUMPTIONS = ["model and theorems: input restricted to printable ASCII (Python's Unicode isdigit/strip on non-ASCII is outside "
+               "the model); the oracle also replaces by control / line-boundary / non-ASCII characters and demands only that "
+               "no elements are returned when the rule fails under the ASCII reading and under Python's Unicode-digit reading",
                "lines are judged after strip(), as the library stores them"]
 TRUSTED = ["model: PV.Model.Checksum (hand-written from tlefile.py:195-225), tied by the complete corruption table per TLE"]
 
@@ -186,7 +193,160 @@ def oracle(ctx):
             mod = base[:i] + ch + base[i + 1:]
             mods.append((mod, l2) if w == 1 else (l1, mod))
         inplace_file_probe(ctx, l1, l2, mods)
+    wide_probe(ctx)
     collection_probe(ctx)
+
+
+# ------------------------------------------------------------------ replacement characters beyond printable ASCII
+# "any single-character corruption that changes this sum ... is rejected ... and never yields elements": the clause "never
+# yields elements" does not depend on the replacement being printable.  Control characters, the characters str.splitlines()
+# treats as line boundaries, Unicode blanks and non-ASCII letters / digits are put at every column of both lines; the only
+# demand is that NO ELEMENTS come back (any exception will do) whenever the stripped lines fail the rule - under the ASCII
+# reading of "digit" AND under Python's Unicode reading (so a digit of another script standing for the same value, where the
+# text leaves the reading open, demands nothing).  A "\n" is not put into files and streams: there it is the framing itself.
+LINE_BOUNDARIES = ["\n", "\r", "\x0b", "\x0c", "\x1c", "\x1d", "\x1e", "\x85", "\u2028", "\u2029"]
+WIDE_CHARS = (LINE_BOUNDARIES
+              + [chr(c) for c in range(0, 32) if chr(c) not in LINE_BOUNDARIES] + ["\x7f"]
+              + [chr(c) for c in (0x80, 0x84, 0x86, 0x8d, 0x9f)]
+              + ["\xa0", "\u1680", "\u2003", "\u200b", "\u202f", "\u205f", "\u3000", "\ufeff",      # blanks and look-alikes
+                 "\xe9", "\u03a9", "\u4e2d", "\U0001f6f0",                                          # letters, astral
+                 "\u0663", "\uff17", "\xb2", "\u2212", "\u2010", "\xad"])                           # other digits / dashes
+WIDE_VIAS = ["lines", "stream", "stream_first", "file"]
+
+
+def wide_weight(ch):
+    """Python's Unicode reading of "digit": the value str.isdigit() characters denote (ASCII digits included)."""
+    import unicodedata
+    if ch == "-":
+        return 1
+    d = unicodedata.digit(ch, None)
+    return d if d is not None else 0
+
+
+def wide_good(line):
+    import unicodedata
+    if not line:
+        return False
+    last = unicodedata.digit(line[-1], None)
+    return last is not None and sum(wide_weight(c) for c in line[:-1]) % 10 == last
+
+
+def wide_must_reject(a, b):
+    sa, sb = a.strip(), b.strip()
+    return not (spec_good(sa) and spec_good(sb)) and not (wide_good(sa) and wide_good(sb))
+
+
+def wide_outcome(via, a, b, tmpdir):
+    """-> (elements returned?, outcome text)."""
+    tlefile = _tlefile()
+    try:
+        if via == "lines":
+            t = tlefile.Tle("x", line1=a, line2=b)
+        elif via == "stream":
+            t = tlefile.Tle("mysat", tle_file=io.StringIO("MYSAT\n%s\n%s\n" % (a, b)))
+        elif via == "stream_first":
+            t = tlefile.Tle("", tle_file=io.StringIO("%s\n%s\n" % (a, b)))
+        elif via == "file":
+            p = os.path.join(tmpdir, "w.tle")
+            with open(p, "wb") as f:
+                f.write(("MYSAT\n%s\n%s\n" % (a, b)).encode("utf-8"))
+            t = tlefile.Tle("mysat", tle_file=p)
+        else:
+            raise AssertionError(via)
+        return True, "elements returned (line1=%r line2=%r orbit=%r)" % (t.line1, t.line2, t.orbit)
+    except AssertionError:
+        raise
+    except Exception as e:  # noqa
+        return False, type(e).__name__
+
+
+def wide_case(ctx, a, b, via, meta, tmpdir):
+    """One corrupted pair through one way of giving it.  Returns 1 when a set that fails the rule yields elements."""
+    if via != "lines" and ("\n" in a or "\n" in b):
+        return 0
+    if not wide_must_reject(a, b):
+        ctx.count("wide_rule_still_met")
+        return 0
+    yielded, what = wide_outcome(via, a, b, tmpdir)
+    ctx.count("eval_oracle_wide_" + via)
+    if yielded:
+        case = dict(meta)
+        case.update({"line1": a, "line2": b, "via": via, "wide": True})
+        ctx.violation("corrupt_accepted" if via == "lines" else "corrupt_accepted_from_source", case, what,
+                      "no elements (the stripped lines fail the rule)", site="Tle._read_tle / Tle._checksum")
+        return 1
+    return 0
+
+
+def truncation_columns(line):
+    """Columns c such that the part of the line in front of column c is, by itself, consistent with the rule."""
+    return [c for c in range(2, len(line)) if spec_good(line[:c].rstrip())]
+
+
+def self_consistent_variant(rng, l1, l2):
+    """A valid element set (both lines satisfy the rule) one of whose lines has a chosen proper prefix that satisfies the rule
+    too: the digit in front of the chosen column is set to the checksum of what precedes it and the line's own check digit is
+    recomputed.  -> (line1, line2, which, column)"""
+    w = rng.choice([1, 2, 2])
+    base = l1 if w == 1 else l2
+    cols = [c for c in range(3, 68) if base[c - 1] in "0123456789"]
+    tail = [c for c in cols if c >= 64]
+    c = rng.choice(tail if tail and rng.random() < 0.6 else cols)
+    new = base[:c - 1] + str(tlegen.checksum(base[:c - 1])) + base[c:68]
+    new = new + str(tlegen.checksum(new))
+    return ((new, l2) if w == 1 else (l1, new)) + (w, c)
+
+
+def wide_probe(ctx):
+    import shutil
+    rng = ctx.rng
+    if ctx.intensified and ctx.violations:
+        return                                              # the search has its failing input already
+    full = ctx.intensified or ctx.tier == "thorough"
+    tmpdir = tempfile.mkdtemp(prefix="pv-c09-wide-")
+    found = 0
+    try:
+        for (l1, l2) in tles(ctx, ctx.size(4, 12)):
+            if not wide_outcome("lines", l1, l2, tmpdir)[0]:
+                continue                                    # judged by the printable stream (valid_rejected)
+            # every column of both lines x every wide character as lines; a sample of them through streams and files
+            for w in (1, 2):
+                base = l1 if w == 1 else l2
+                for i in range(len(base)):
+                    others = rng.sample(WIDE_CHARS, 4 if full else 2)
+                    for ch in WIDE_CHARS:
+                        mod = base[:i] + ch + base[i + 1:]
+                        a, b = (mod, l2) if w == 1 else (l1, mod)
+                        meta = {"which": w, "pos": i, "char": ch}
+                        ctx.distinct((l1[2:7], w, i, ord(ch)))
+                        for via in (WIDE_VIAS if ch in others else WIDE_VIAS[:1]):
+                            found += wide_case(ctx, a, b, via, meta, tmpdir)
+                if found > 12:
+                    return
+            # self-consistent truncations: the set itself and re-issued sets with a rule-consistent prefix, cut at that
+            # column by every line-boundary character, through every way of giving the set
+            variants = [(l1, l2, None, None)] + [self_consistent_variant(rng, l1, l2) for _ in range(8 if full else 5)]
+            for (v1, v2, vw, vc) in variants:
+                if not wide_outcome("lines", v1, v2, tmpdir)[0]:
+                    ctx.count("wide_variant_not_accepted")
+                    continue
+                for w in (1, 2):
+                    base = v1 if w == 1 else v2
+                    cols = truncation_columns(base)
+                    ctx.bump("self_consistent_prefix_columns", len(cols))
+                    for c in cols:
+                        for ch in LINE_BOUNDARIES:
+                            mod = base[:c] + ch + base[c + 1:]
+                            a, b = (mod, v2) if w == 1 else (v1, mod)
+                            meta = {"which": w, "pos": c, "char": ch, "self_consistent_prefix": c,
+                                    "valid_line1": v1, "valid_line2": v2}
+                            ctx.distinct((v1[2:7], "cut", base[:c], w, ord(ch)))
+                            for via in WIDE_VIAS:
+                                found += wide_case(ctx, a, b, via, meta, tmpdir)
+                if found > 12:
+                    return
+    finally:
+        shutil.rmtree(tmpdir, ignore_errors=True)
 
 
 def inplace_file_probe(ctx, l1, l2, mods, tmpdir=None):
@@ -549,6 +709,22 @@ def replay(ctx, case):
         finally:
             logging.disable(prev)
             shutil.rmtree(tmpdir, ignore_errors=True)
+        return 1 if bad else 0
+    if inp.get("wide"):
+        import shutil
+        tmpdir = tempfile.mkdtemp(prefix="pv-c09-wide-")
+        try:
+            a, b, via = inp["line1"], inp["line2"], inp["via"]
+            print("line %s column %s replaced by %r, given as %s" % (inp.get("which"), (inp.get("pos") or 0) + 1,
+                                                                     inp.get("char"), via))
+            print("line1 = %r\nline2 = %r" % (a, b))
+            print("statement says:", "reject (no elements)" if wide_must_reject(a, b) else "nothing (the rule is met)")
+            yielded, what = wide_outcome(via, a, b, tmpdir)
+            print("outcome:", what)
+            bad = wide_case(ctx, a, b, via, {k: inp.get(k) for k in ("which", "pos", "char")}, tmpdir)
+        finally:
+            shutil.rmtree(tmpdir, ignore_errors=True)
+        print("VIOLATES" if bad else "ok")
         return 1 if bad else 0
     if "intact_line1" in inp:
         bad = inplace_file_probe(ctx, inp["intact_line1"], inp["intact_line2"], [(inp["line1"], inp["line2"])])
